@@ -3,11 +3,11 @@
    language can express, all four poll methods, all fault sets, any wait limit.
    STATUS: the full statement of this property on the core model is `mon_C18 (run_scenario sc) = true /\ no_code [706] ...`
    (see Properties_C18.v.draft); the theorems below are the monitor clauses already proved (named _partial);
-   the remaining clauses (1801 1802 1804 706) are checked on every implementation AND model trace by the extracted monitor
+   the remaining clause (1802: every descriptor the library opened is closed by iv_deinit) are checked on every implementation AND model trace by the extracted monitor
    while their proofs are being completed. *)
 From Coq Require Import List ZArith Bool.
 From Ivv Require Import Core.Kernel Core.CoreTypes Core.CoreFd Core.CoreModel Core.Monitors Core.CoreSpec
-  Core.CoreRel Core.CoreCodes.
+  Core.CoreRel Core.CoreCodes Core.CoreCodes2.
 Import ListNotations.
 Local Open Scope Z_scope.
 
@@ -19,3 +19,9 @@ Theorem C18_only_registered_objects_partial :
 Proof. exact codes_C01. Qed.
 Print Assumptions C18_only_registered_objects_partial.
 
+(* the model never performs an out-of-model access (an index outside the poll array / object tables: 1801) and never
+   reaches a library abort (1804); the loop-object accounting is balanced at tear-down (706) *)
+Theorem C18_no_bad_access_balanced_partial :
+  forall sc, wf_scenario sc -> no_code [1801; 1804; 706] (mon_fails (run_scenario sc)).
+Proof. exact codes_hygiene. Qed.
+Print Assumptions C18_no_bad_access_balanced_partial.
